@@ -280,3 +280,11 @@ TEXT["C03"]["level"] += ("  (e) AArch64 and ARMv6-M: translate/arm2lean.py regen
                          "so a change to an ARM source that alters a result on the boundary-directed operands is reported although the code cannot be executed here.")
 TEXT["C03"]["note"] = ("ARM models: no theorems, instruction semantics transcribed from the Arm ARM and NOT validated against hardware (none available); the Thumb-1 parse is not cross-checked by an assembler (llvm-mc rejects the divided syntax).  x86: the machine model's instruction semantics are validated against the host CPU on every run through the judge, asm2lean is cross-checked against GNU as/objdump.  "
                        "Side conditions of the assembly theorems are the C++ contract's: operands < p for the modular routines, res disjoint from p, multiply/square output disjoint from the inputs (__restrict), 2p <= 2^384.  Observations on the ARMv6-M sources are recorded in DESIGN.md 8.3.")
+TEXT["C18"] = {
+ "level": "Lean 4 theorems at every layer.  WORD and PRIME-FIELD layers (C18c): a memory-level model of the portable C++ of bigint.hpp/fp.hpp (objects = arrays of words in a store, every function = the exact sequence of word reads and writes of its loops, temporaries included) is proved equal to the functional limb model of C02 for every alias pattern the signatures permit "
+          "(add/subtract/shl1/shr1, shift_left/shift_right for EVERY shift amount - the pre-repair loop order is proved wrong in place -, FpBase add/subtract/multiply2/negate, Fp multiply/square/set/get with out = a, out = b, out = a = b), with frame conditions; the excluded patterns are exactly the operands marked __restrict.  "
+          "x86-64 assembly: the all-entry-state theorems of C03/C03b allow res = a / res = b.  TOWER: generated alias theorems for every translated method and pattern (out=a, out=b, out=a=b); a pattern that makes a callee's __restrict contract false is reported by the translator.  CURVE and PAIRING (C18b): both instantiations of add/mixed add/multiply2/negate/equal, final_exponentiation in place.  "
+          "All memory-level models run in the judge with the alias pattern of each op line and must reproduce the real output exactly; paired differential runs (same operands, aliased vs distinct call on the real code, -O0 and -O2) cover scalar multiplication, GT, pairing and the C interface.",
+ "note": "Source-level semantics only: what an optimiser does with __restrict is outside the model and is sampled (-O0/-O2, gcc/clang), not proved.  Observation (DESIGN 8.3): FpBase::negate in place passes `this` as a __restrict operand of BigInt::subtract (harmless for the statement order, proved).  Trusted: translator's location/alias analysis, hand-written memory-level mirror (tied by running), harness.",
+ "technique": "Lean 4 proof (memory-level models of the limb loops = functional models for every permitted alias pattern; alias-variant equalities of generated models) + paired differential runs",
+}
